@@ -70,6 +70,14 @@ def scenarios(thorough):
     # a process type added twice (plus distinct ones), labels with a repeated key
     dup = dict(LAUNCH3, processes=LAUNCH3["processes"] + [LAUNCH3["processes"][0], LAUNCH3["processes"][1]], labels=LAUNCH3["labels"] + [["k1", "again"]])
     out.append({"phase": "build", "label": "duplicate-process-types", "script": {"build": {"kind": "pass", "launch": dup, "store": STORE3}}})
+    # exec.d programs that share one source file (three names, one source), by both APIs
+    same_src = {"10-alpha": "p1", "20-beta": "p1", "30-gamma": "p1", "40-other": "p2"}
+    out.append({"phase": "build", "label": "execd-shared-source:write_exec_d", "script": {"build": {"kind": "pass", "ops": [{"op": "cached", "name": "a", "launch": True}, {"op": "write_exec_d", "name": "a", "programs": same_src}]}}})
+    out.append({"phase": "build", "label": "execd-shared-source:handle", "script": {"build": {"kind": "pass", "ops": [{"op": "handle", "name": "a", "types": [True, True, True], "strategy": "recreate", "result": dict(RESULT3, execd=same_src)}]}}})
+    # a build plan in which names repeat inside an alternative (provides and requires)
+    rep_plan = [["provides", "node"], ["provides", "npm"], ["provides", "node"], ["provides", "yarn"], ["provides", "pnpm"], ["requires", "k1"], ["requires", "k2"], ["requires", "k1"], ["requires", "k3"],
+                ["or"], ["provides", "p1"], ["provides", "p2"], ["provides", "p3"], ["provides", "p2"], ["requires_meta", "k2", {"k2": 1}], ["requires_meta", "k2", {"k1": 2}], ["requires", "k3"]]
+    out.append({"phase": "detect", "label": "plan-repeated-names", "script": {"detect": {"kind": "pass_plan", "plan": rep_plan}}})
     # several SBOMs of the same format in one call (they target the same file: which one survives
     # must not depend on the process)
     dup_sb = [["cdx", "{\"first\":true}"], ["cdx", "{\"second\":true}"], ["spdx", "{\"s\":1}"], ["spdx", "{\"s\":2}"], ["syft", "{\"y\":1}"], ["cdx", "{\"third\":true}"]]
